@@ -562,6 +562,10 @@ pub fn render_float_sci(
 	out.push_str(&exponent_str);
 }
 
+/// Digits of e/f/g conversions are generated by scaling with `10^precision`,
+/// which has to be a finite double
+const MAX_FLOAT_PRECISION: u16 = 308;
+
 #[allow(clippy::too_many_lines)]
 pub fn format_code(
 	out: &mut String,
@@ -572,6 +576,13 @@ pub fn format_code(
 ) -> Result<()> {
 	let clfags = &code.cflags;
 	let (fpprec, iprec) = precision.map_or((6, 0), |v| (v, v));
+	if fpprec > MAX_FLOAT_PRECISION
+		&& matches!(
+			code.convtype,
+			ConvTypeV::Scientific | ConvTypeV::Float | ConvTypeV::Shorter
+		) {
+		bail!(FieldWidthTooLarge);
+	}
 	let padding = if clfags.zero && !clfags.left {
 		width
 	} else {
